@@ -67,7 +67,8 @@ int main(int argc, char** argv) {
     std::vector<unsigned> ns = T ? std::vector<unsigned>{8, 12, 13} : std::vector<unsigned>{8};
     std::vector<unsigned> nbs = T ? std::vector<unsigned>{2, 3} : std::vector<unsigned>{2};
     for (unsigned n : ns) for (unsigned nb : nbs) for (int kind = 0; kind < NKIND; kind++) for (unsigned it = 1; it <= 4; it++)
-    for (int var = 0; var < 3; var++) for (int dv = 0; dv < 2; dv++) {
+    for (int var = 0; var < 4; var++) for (int dv = 0; dv < 2; dv++) {
+        if (var == 3 && kind != KICKY) continue;   // var 3: rows of one bunch displaced beyond the grid (y-kick fields only)
         if ((kind == FP3 || kind == FP4 || kind == IDENT) && it > 1) continue;   // interpolation order is not a parameter of these
         std::string kase = mcx::Desc()("map", KN[kind])("n", n)("nb", nb)("it", it)("var", var)("data", dv).str();
         if (!R.mine(kase)) continue;
@@ -79,13 +80,15 @@ int main(int argc, char** argv) {
             fields[b].resize(n);
             // x-kicks share one field by design (the drift is the same for all bunches); y-kicks get a different field per bunch
             for (unsigned r = 0; r < n; r++) fields[b][r] = A[(r * 3 + var * 5 + (kind == KICKY ? b * 11 : 0)) % A.size()];
+            // kicks beyond the grid (the whole row flows out) in one bunch must not leak into another bunch's table
+            if (var == 3) { const float big[4] = {(float)(n / 2), n / 2 + 0.5f, (float)n, 3.f * n}; for (unsigned r = b; r < n; r += 3) fields[b][r] = big[(r + b) % 4]; }
         }
         std::vector<uint32_t> buckets; for (unsigned b = 0; b < nb; b++) buckets.push_back((nb - 1 - b) * (var == 2 ? 2 : 1));
         const unsigned spacing = n + 3, N = (var == 0 ? 64 : var == 1 ? 60 : 111);
         set_size(n, nb);
         std::vector<float> multi, wake_multi;
         {
-            Built B = build(kind, n, nb, it, var, data, fields, buckets, N, spacing);
+            Built B = build(kind, n, nb, it, var % 3, data, fields, buckets, N, spacing);
             B.m->apply();
             multi.assign(B.out->getData(), B.out->getData() + (size_t)n * n * nb);
             if (kind == WAKE) {
@@ -104,7 +107,7 @@ int main(int argc, char** argv) {
             std::vector<std::vector<float>> d1 = {data[b]}, f1 = {fields[b]};
             int k1 = kind;
             if (kind == WAKE) { k1 = KICKY; f1[0].assign(wake_multi.begin() + b * n, wake_multi.begin() + (b + 1) * n); }
-            Built S = build(k1, n, 1, it, var, d1, f1, {0}, N, 0);
+            Built S = build(k1, n, 1, it, var % 3, d1, f1, {0}, N, 0);
             S.m->apply();
             const float* o = S.out->getData(); const float* mo = multi.data() + (size_t)b * n * n;
             double maxd = 0; size_t nd = 0;
@@ -116,6 +119,6 @@ int main(int argc, char** argv) {
             }
         }
     }
-    R.bound_done(std::string("map classes x n x nb x it x 3 parameter variants x 2 data variants, ") + (T ? "n{8,12,13} nb{2,3}" : "n{8} nb{2}"));
+    R.bound_done(std::string("map classes x n x nb x it x 3 parameter variants (+ off-grid rows for y-kicks) x 2 data variants, ") + (T ? "n{8,12,13} nb{2,3}" : "n{8} nb{2}"));
     return R.finish();
 }
